@@ -311,7 +311,44 @@ func constVal(st *State, cv constant.Value, t types.Type) Val {
 	return st.freshVal(t, "const", 0)
 }
 
+// fieldPath: the field indices that lead to `name` in struct type t, directly or through embedded structs.
+func fieldPath(t types.Type, name string) ([]int, bool) {
+	st, ok := t.Underlying().(*types.Struct)
+	if !ok {
+		return nil, false
+	}
+	for i := 0; i < st.NumFields(); i++ {
+		if st.Field(i).Name() == name {
+			return []int{i}, true
+		}
+	}
+	for i := 0; i < st.NumFields(); i++ {
+		if st.Field(i).Embedded() {
+			if sub, ok := fieldPath(st.Field(i).Type(), name); ok {
+				return append([]int{i}, sub...), true
+			}
+		}
+	}
+	return nil, false
+}
+
 func (e *SpecEnv) field(v Val, name string, x ast.Expr) Val {
+	if p, ok := v.(PtrV); ok && isHeapPtr(p) {
+		// a field of a heap object: read just that field
+		p, _ = e.cur().resolve(p)
+		et, _, rest := heapPath(p.Root, "", p.Path)
+		if len(rest) == 0 {
+			if fp, ok := fieldPath(et, name); ok {
+				np := PtrV{Sym: p.Sym, Root: p.Root, Path: append([]Step(nil), p.Path...)}
+				for _, f := range fp {
+					np.Path = append(np.Path, Step{Field: f})
+				}
+				if lv, ok := e.cur().load(np); ok {
+					return lv
+				}
+			}
+		}
+	}
 	if p, ok := v.(PtrV); ok {
 		lv, ok := e.cur().load(p)
 		if !ok {
@@ -1046,7 +1083,8 @@ func (e *SpecEnv) lvalue(x ast.Expr) (PtrV, Val, bool) {
 		return e.lvalue(t.X)
 	case *ast.StarExpr:
 		v := e.eval(t.X)
-		if p, ok := v.(PtrV); ok && p.Sym == "" && p.Obj != 0 {
+		if p, ok := v.(PtrV); ok && (p.Sym == "" && p.Obj != 0 || isHeapPtr(p)) {
+			p, _ = e.cur().resolve(p)
 			lv, ok := e.cur().load(p)
 			return p, lv, ok
 		}
@@ -1057,6 +1095,8 @@ func (e *SpecEnv) lvalue(x ast.Expr) (PtrV, Val, bool) {
 		bv := e.eval(t.X)
 		if p, ok := bv.(PtrV); ok && p.Sym == "" && p.Obj != 0 {
 			base = p
+		} else if ok && isHeapPtr(p) {
+			base, _ = e.cur().resolve(p)
 		} else if bp, _, ok := e.lvalue(t.X); ok {
 			base = bp
 		} else {
@@ -1072,12 +1112,19 @@ func (e *SpecEnv) lvalue(x ast.Expr) (PtrV, Val, bool) {
 			e.fail("location %s: not a struct", exprString(x))
 			return PtrV{}, nil, false
 		}
-		stt := sv.Typ.Underlying().(*types.Struct)
-		for i := 0; i < stt.NumFields(); i++ {
-			if stt.Field(i).Name() == t.Sel.Name {
-				np := PtrV{Obj: base.Obj, Path: append(append([]Step(nil), base.Path...), Step{Field: i}), Typ: types.NewPointer(stt.Field(i).Type())}
-				return np, sv.F[i], true
+		if fp, ok := fieldPath(sv.Typ, t.Sel.Name); ok {
+			np := PtrV{Obj: base.Obj, Sym: base.Sym, Root: base.Root, Path: append([]Step(nil), base.Path...)}
+			var fv Val = sv
+			ft := sv.Typ
+			for _, f := range fp {
+				np.Path = append(np.Path, Step{Field: f})
+				ft = ft.Underlying().(*types.Struct).Field(f).Type()
+				if s2, ok := fv.(StructV); ok && f < len(s2.F) {
+					fv = s2.F[f]
+				}
 			}
+			np.Typ = types.NewPointer(ft)
+			return np, fv, true
 		}
 		e.fail("no field %s", t.Sel.Name)
 		return PtrV{}, nil, false
@@ -1087,7 +1134,8 @@ func (e *SpecEnv) lvalue(x ast.Expr) (PtrV, Val, bool) {
 		if sl, ok := v.(SliceV); ok {
 			return PtrV{}, sl, true
 		}
-		if p, ok := v.(PtrV); ok && p.Sym == "" && p.Obj != 0 {
+		if p, ok := v.(PtrV); ok && (p.Sym == "" && p.Obj != 0 || isHeapPtr(p)) {
+			p, _ = e.cur().resolve(p)
 			lv, ok := e.cur().load(p)
 			return p, lv, ok
 		}
@@ -1115,4 +1163,12 @@ func (e *SpecEnv) lvalue(x ast.Expr) (PtrV, Val, bool) {
 	}
 	e.fail("unsupported location %s", exprString(x))
 	return PtrV{}, nil, false
+}
+
+func isHeapPtr(p PtrV) bool {
+	if p.Sym == "" {
+		return false
+	}
+	_, ok := symStructElem(p)
+	return ok
 }
